@@ -112,6 +112,13 @@ if on('c25k'):   # dup with subgraph and a module-level import
         r = s['m_d#k_d'].ir
         return show(s), [str(c.name) for c in FindNodes(ir.CallStatement).visit(r.body)], [(str(i.module), [str(x) for x in i.symbols]) for i in r.parent.imports]
     attempt('c25k', f)
+if on('c25l'):   # dup then dep: the interface declaration shared by the routine and its clone is renamed twice
+    s, _ = sched({'d.f90': sub('d', ['k'], ifaces=['k']), 'k.f90': sub('k', ['l'], ifaces=['l']), 'l.f90': sub('l')}, ['d'], ['d'])
+    def f():
+        s.process(DuplicateKernel(duplicate_kernels=('k',), duplicate_suffix='_d'))
+        s.process(DependencyTransformation(suffix='_x'))
+        return show(s)
+    attempt('c25l', f)
 if on('c24a'):   # plan vs convert: dep before a name-valued rm
     res = {}
     for strategy in (ProcessingStrategy.PLAN, ProcessingStrategy.DEFAULT):
